@@ -121,6 +121,7 @@ fn main() {
                 facts!(30, DMock::p_arc2);
                 facts!(33, DMock::r_val);
                 facts!(34, DMock::p_val2);
+                facts!(35, DMock::p_rc3);
             }
             writeln!(out, "--").unwrap();
             out.flush().unwrap();
